@@ -1,5 +1,6 @@
 import TealerModel.Proto
 import TealerModel.Avm
+import TealerModel.Regex
 open Tealer Tealer.Proto
 
 def emit (out : IO.FS.Stream) (s : String) : IO Unit := out.putStrLn s
@@ -123,6 +124,27 @@ def handleRun (out : IO.FS.Stream) (prog : List Ins) (pcb : List (Nat × Bool)) 
     | _, _, _, _ => emit out s!"res {id} badenv"
   | _ => emit out s!"res {id} badrequest"
 
+def parseAssoc (s : String) : List (Nat × List Nat) :=
+  (s.splitOn ";").filterMap fun e =>
+    match e.splitOn ":" with
+    | [k, vs] => k.toNat?.map fun k => (k, (vs.splitOn ",").filterMap String.toNat?)
+    | _ => none
+
+def handleRegex (out : IO.FS.Stream) (id : String) (args : List String) : IO Unit := do
+  match args with
+  | [start, plen, n, nexts, same] =>
+    match start.toNat?, plen.toNat?, n.toNat? with
+    | some start, some plen, some n =>
+      let nx := parseAssoc nexts
+      let sm := parseAssoc same
+      let g : Regex.IG := {
+        next := fun c => (nx.find? (·.1 == c)).map (·.2) |>.getD []
+        same := fun c k => ((sm.find? (·.1 == k)).map (·.2) |>.getD []).contains c }
+      let (ms, cov) := Regex.matchRegex g plen n start
+      emit out s!"rx {id} matches={"|".intercalate (ms.map fun m => "-".intercalate (m.map toString))} covered={natList (cov.mergeSort (· ≤ ·)).eraseDups}"
+    | _, _, _ => emit out s!"rx {id} badrequest"
+  | _ => emit out s!"rx {id} badrequest"
+
 partial def loop (inp out : IO.FS.Stream) (prog : List Ins) (pcb : List (Nat × Bool)) : IO Unit := do
   let line ← inp.getLine
   if line.isEmpty then return ()
@@ -139,6 +161,10 @@ partial def loop (inp out : IO.FS.Stream) (prog : List Ins) (pcb : List (Nat × 
       | .ok t => emit out "semprog ok"; out.flush; loop inp out ins (pcBlocks ins t)
       | .error e => emit out s!"semprog err {e}"; out.flush; loop inp out [] []
     | none => emit out "semprog err decode"; out.flush; loop inp out [] []
+  | "regex" :: id :: args =>
+    handleRegex out id args
+    out.flush
+    loop inp out prog pcb
   | "run" :: id :: args =>
     handleRun out prog pcb id args
     out.flush
